@@ -130,6 +130,47 @@ def rule_u2(repo, col):
         or ("'\\n'.join([' '.join(map(str, cl)) + ' 0' for cl in content])" in src)
     col.decide("U2", m, f.node, body_ok, "every clause is one line: literals separated by blanks, terminated by ' 0'",
                "each emitted clause must be printed as ' '.join(map(str, clause)) + ' 0', one per line, in the order of the content list", construct="clause lines", function="CNF.to_dimacs")
+    # every piece of text put in front of the clause block ends with a newline (otherwise the first clause is glued to a comment and lost to a DIMACS reader)
+    def ends_nl(e, env):
+        """True / False / None (unknown)"""
+        if isinstance(e, ast.Constant) and isinstance(e.value, str):
+            return e.value.endswith("\n") if e.value else None
+        if isinstance(e, ast.Name) and e.id in env:
+            return env[e.id]
+        if isinstance(e, ast.BinOp) and isinstance(e.op, ast.Mod):
+            return ends_nl(e.left, env)
+        if isinstance(e, ast.BinOp) and isinstance(e.op, ast.Add):
+            r_ = ends_nl(e.right, env)
+            return r_ if r_ is not None else None
+        if isinstance(e, ast.Call) and isinstance(e.func, ast.Attribute) and e.func.attr == "format":
+            return ends_nl(e.func.value, env)
+        if isinstance(e, ast.Call) and isinstance(e.func, ast.Attribute) and e.func.attr == "join" and len(e.args) == 1:
+            sep = e.func.value
+            if isinstance(sep, ast.Constant) and sep.value == "" and isinstance(e.args[0], (ast.GeneratorExp, ast.ListComp)):
+                return ends_nl(e.args[0].elt, env)  # concatenation of pieces: ends like its pieces
+            return False  # a separator-joined block does not end with the separator
+        return None
+
+    env = {}
+    frags = []
+    last_is_clause_block = False
+    for st in ast.walk(f.node):
+        if isinstance(st, ast.Assign) and isinstance(st.targets[0], ast.Name) and st.targets[0].id != "result":
+            env[st.targets[0].id] = ends_nl(st.value, env)
+    for st in ast.walk(f.node):
+        if isinstance(st, ast.Assign) and norm(st.targets[0]) == "result":
+            frags.append((st, st.value))
+        elif isinstance(st, ast.AugAssign) and norm(st.target) == "result" and isinstance(st.op, ast.Add):
+            frags.append((st, st.value))
+    frags.sort(key=lambda x: x[0].lineno)
+    if len(frags) < 2:
+        raise AnalysisError("to_dimacs: text assembly not understood")
+    for st, v in frags[:-1]:
+        r_ = ends_nl(v, env)
+        if r_ is None:
+            raise AnalysisError("to_dimacs: cannot tell whether %s ends with a newline" % norm(v)[:80])
+        col.decide("U2", m, st, r_, "text in front of the clause block ends with a newline", "to_dimacs puts %s in front of the clause block without a terminating newline: the first clause line is glued "
+                   "to it (to a comment line when names=True) and is not read as a clause" % norm(v)[:80], function="CNF.to_dimacs")
     # comment lines only under names and starting with 'c '
     cm = [n for n in walk_no_nested(f.node) if isinstance(n, ast.If) and norm(n.test) == "names"]
     okc = len(cm) == 1 and any(isinstance(x, ast.Constant) and isinstance(x.value, str) and x.value.startswith("c ") for x in ast.walk(cm[0]))
@@ -185,8 +226,32 @@ def rule_u4(repo, col):
                     break
     col.decide("U4", m, f.node, okt, "the cnf format grounds into a LogicDAG (cycles broken)", "the cnf export must select target = LogicDAG: Clark's completion is only correct for acyclic programs",
                construct="def main: cnf target", function="main")
-    w = [n for n in walk_no_nested(f.node) if isinstance(n, ast.Call) and isinstance(n.func, ast.Attribute) and n.func.attr == "to_dimacs"]
-    okw = len(w) == 1 and norm(w[0].func.value) == "CNF.createFrom(gp)" and not any(k.arg in ("partial", "weighted") for k in w[0].keywords)
+    # the output may be produced by a module-level helper that receives the ground program (inlining bound 1)
+    scopes = [(f, "gp")]
+    gpname = None
+    for st in walk_no_nested(f.node):
+        if isinstance(st, ast.Assign) and isinstance(st.targets[0], ast.Name) and isinstance(st.value, ast.Call) and isinstance(st.value.func, ast.Attribute) and st.value.func.attr == "createFrom" \
+                and norm(st.value.func.value) == "target":
+            gpname = st.targets[0].id
+    if gpname is None:
+        raise AnalysisError("ground main: the ground program is not bound to a name")
+    scopes = [(f, gpname)]
+    for c_ in walk_no_nested(f.node):
+        if isinstance(c_, ast.Call) and isinstance(c_.func, ast.Name) and c_.func.id in m.functions and not c_.keywords:
+            argn = [norm(a_) for a_ in c_.args]
+            h = m.functions[c_.func.id]
+            if gpname in argn and len(argn) == len(h.params):
+                scopes.append((h, h.params[argn.index(gpname)]))
+    w = []
+    tp = []
+    for sf, gpn in scopes:
+        for n in walk_no_nested(sf.node):
+            if isinstance(n, ast.Call) and isinstance(n.func, ast.Attribute) and n.func.attr == "to_dimacs":
+                w.append((n, gpn))
+            if isinstance(n, ast.Call) and norm(n.func) == "%s.to_prolog" % gpn:
+                tp.append(n)
+    okw = len(w) == 1 and norm(w[0][0].func.value) == "CNF.createFrom(%s)" % w[0][1] and not any(k.arg in ("partial", "weighted") for k in w[0][0].keywords)
+    w = [x[0] for x in w]
     col.decide("U4", m, w[0] if w else f.node, okw, "cnf output is CNF.createFrom(gp).to_dimacs() in plain mode", "the cnf format must print CNF.createFrom(gp).to_dimacs(...) without partial/weighted",
                **({} if w else {"construct": "def main: cnf output", "function": "main"}))
     cr = [n for n in walk_no_nested(f.node) if isinstance(n, ast.Call) and isinstance(n.func, ast.Attribute) and n.func.attr == "createFrom" and norm(n.func.value) == "target"]
@@ -219,7 +284,6 @@ def rule_u4(repo, col):
         col.decide("U4", m, cr[0], ok, "%s is on by default (%s)" % (opt, why),
                    "the ground task must ground with %s=True unless the user opts out with a store_true flag (to_prolog needs it); found %s" % (opt, why),
                    construct="createFrom: %s" % opt, function="main")
-    tp = [n for n in walk_no_nested(f.node) if isinstance(n, ast.Call) and norm(n.func) == "gp.to_prolog"]
     col.decide("U4", m, tp[0] if tp else f.node, len(tp) >= 1, "the Prolog format prints gp.to_prolog()", "the pl format must print gp.to_prolog()", **({} if tp else {"construct": "def main: pl output", "function": "main"}))
 
 
